@@ -186,3 +186,45 @@ Definition findFile_fs (root : entry) (cwd : list str) (path : list (list str * 
   | Some c => findFile c (map (fun '(p, dots) => (resolve root p, dots)) path) name
   | None => Unmodelled
   end.
+
+(* ---- a history of Modules.Read calls on one Modules (modules.go Read + file.go findFile/addDir) ----
+   State: ms.Path as (root-relative components of the directory the element names, "dir/..." flag); whether
+   pathMap["."] is set (an element spelled exactly "." is on the path); the files opened so far.
+   findFile adds filepath.Dir(name) to the path when the file is read directly, i.e. found at location 0: for
+   the slash-free names modelled here that is ".", the current directory, appended unless already there under that
+   spelling.  Every file of the layout holds one module with a (name, revision) of its own, so Parse rejects a
+   text exactly when the same file is opened a second time; Read then puts the path back. *)
+Record mstate := MState { m_path : list (list str * bool); m_dot : bool; m_opened : list (list str) }.
+
+Definition abs_of (cwd : list str) (path : list (list str * bool)) (f : found) : list str :=
+  match f_loc f with
+  | O => cwd
+  | S i => fst (nth i path ([], false))
+  end ++ f_rel f.
+
+Fixpoint comps_eqb (a b : list str) : bool :=
+  match a, b with
+  | [], [] => true
+  | x :: a', y :: b' => str_eqb x y && comps_eqb a' b'
+  | _, _ => false
+  end.
+
+Definition Read (root : entry) (cwd : list str) (st : mstate) (name : str) : outcome (list str) * mstate :=
+  match findFile_fs root cwd (m_path st) name with
+  | Ok f =>
+      let p := abs_of cwd (m_path st) f in
+      if existsb (comps_eqb p) (m_opened st) then (Err, st)            (* duplicate module: path restored *)
+      else
+        let here := match f_loc f with O => true | S _ => false end in
+        (Ok p, MState (if here && negb (m_dot st) then m_path st ++ [(cwd, false)] else m_path st)
+                      (m_dot st || here) (p :: m_opened st))
+  | Err => (Err, st)
+  | Panic => (Panic, st)
+  | Unmodelled => (Unmodelled, st)
+  end.
+
+Fixpoint Read_all (root : entry) (cwd : list str) (st : mstate) (names : list str) : list (outcome (list str)) :=
+  match names with
+  | [] => []
+  | n :: rest => let '(o, st') := Read root cwd st n in o :: Read_all root cwd st' rest
+  end.
